@@ -38,6 +38,20 @@ Theorem C03_omitted_exact : forall s t st u,
 Proof. exact omitted_exact. Qed.
 Print Assumptions C03_omitted_exact.
 
+(* the deduced amount is, in every commodity, minus the sum of the other postings' balancing
+   values (posting_bv as in C01_residual_is_sum_of_balancing_values; the omitted posting's
+   own entry in bvs is None and contributes 0) *)
+Theorem C03_omitted_is_negated_sum : forall s t st u,
+  txn_loop s t = Ok st -> l_unfilled st = Some u ->
+  exists bvs,
+    length bvs = length (t_posts t) /\
+    nth_error bvs u = Some None /\
+    (forall k p, nth_error (t_posts t) k = Some p ->
+       exists b o, bal_before s t k b /\ nth_error bvs k = Some o /\ posting_bv b p o) /\
+    forall c, a_get (a_neg (l_residual st)) c = - qc_sum (map (fun o => bv_get o c) bvs).
+Proof. exact omitted_pointwise. Qed.
+Print Assumptions C03_omitted_is_negated_sum.
+
 (* commodity by commodity the deduced amount is the negated residual *)
 Theorem C03_deduced_pointwise : forall a c, a_get (a_neg a) c = - a_get a c.
 Proof. exact a_get_neg. Qed.
@@ -134,6 +148,29 @@ Theorem C03_assign_zero_exact_txn : forall s t i p bc b,
        option_map o_amount (nth_error posts' i) = Some (a_neg (bal_get b (p_account p)))).
 Proof. exact assign_zero_exact_txn. Qed.
 Print Assumptions C03_assign_zero_exact_txn.
+
+(* "leaves the account at X" at the end of the transaction: C03_assign_exact_txn gives the
+   account's value right after the assignment posting; it is still there when the
+   transaction is done provided no other posting of the transaction (the omitted one
+   included) names the account.  Without that proviso the statement is false of the faithful
+   model: known finding C03-K1, witnessed by C03_assign_final_refuted_K1
+   (`A / A = 5 USD / B 3 USD` leaves A at -3 USD). *)
+Theorem C03_assign_final : forall s t s' i p bc c v,
+  bal_wf (s_bal s) ->
+  add_transaction s t = Ok s' ->
+  nth_error (t_posts t) i = Some p -> assignment p bc -> eval_pa bc = Ok (PSingle c v) ->
+  (forall j pj, j <> i -> nth_error (t_posts t) j = Some pj -> p_account pj <> p_account p) ->
+  a_get (bal_get (s_bal s') (p_account p)) c = v.
+Proof. exact assign_single_final. Qed.
+Print Assumptions C03_assign_final.
+
+Theorem C03_assign_final_refuted_K1 :
+  exists t s' p bc c v,
+    add_transaction bstate0 t = Ok s' /\ bal_wf (s_bal bstate0) /\
+    nth_error (t_posts t) 1 = Some p /\ assignment p bc /\ eval_pa bc = Ok (PSingle c v) /\
+    a_get (bal_get (s_bal s') (p_account p)) c <> v.
+Proof. exact k1_witness. Qed.
+Print Assumptions C03_assign_final_refuted_K1.
 
 (* balances of every reachable state, and of every running balance inside a transaction
    started from one, have distinct commodities per account *)
